@@ -41,6 +41,7 @@ fn build() -> Repo {
     write(&dir, "d/staged new.txt", "staged\n"); g(&dir, &["add", "d/staged new.txt"]);   // created and staged
     write(&dir, "d/untracked file.txt", "untracked\n");                  // untracked
     write(&dir, "d/\"quoted\" name.txt", "q\n");                           // untracked, a name git would escape
+    write(&dir, "b/zz trailing ", "pending\n");                          // untracked, the name ENDS with a blank (a path is reported verbatim)
     write(&dir, "d/ignored.tmp", "ignored\n"); write(&dir, "build/out.bin", "ignored\n");    // ignored
     std::fs::remove_file(dir.join("c/del.txt")).unwrap();                // deleted, unstaged
     g(&dir, &["mv", "a/two.txt", "c/two-moved.txt"]);                     // moved and staged
@@ -128,6 +129,7 @@ async fn pending_fixpoint_body() {
         ("a new untracked file appears", Box::new(|| write(&r.dir, "c/fresh file.txt", "fresh\n")), vec!["a/one.txt", "b/ü ñ.txt", "c/fresh file.txt"]),
         ("a committed file is deleted", Box::new(|| std::fs::remove_file(r.dir.join("c/stay.txt")).unwrap()), vec!["a/one.txt", "b/ü ñ.txt", "c/fresh file.txt", "c/stay.txt"]),
         ("the moved file gets new content at its new place", Box::new(|| write(&r.dir, "c/two-moved.txt", "edited after the move\n")), vec!["a/one.txt", "b/ü ñ.txt", "c/fresh file.txt", "c/stay.txt", "c/two-moved.txt"]),
+        ("the pending file whose name ends with a blank gets new content", Box::new(|| write(&r.dir, "b/zz trailing ", "pending\nand more\n")), vec!["a/one.txt", "b/zz trailing ", "b/ü ñ.txt", "c/fresh file.txt", "c/stay.txt", "c/two-moved.txt"]),
     ];
     for (what, act, want) in steps {
         checked += 1;
